@@ -9,7 +9,8 @@ import facts
 import mir
 
 VERIF = facts.VERIF
-EVID = os.path.join(VERIF, "evidence")
+# self-tests (mutants, seeded changes) redirect their evidence so that the committed files always describe the unchanged tree
+EVID = os.environ.get("MZSA_EVIDENCE_DIR") or os.path.join(VERIF, "evidence")
 REPLAY = os.path.join(EVID, "replay")
 KNOWN = os.path.join(VERIF, "known_findings.json")
 REVIEWED = os.path.join(VERIF, "mzsa", "tables", "reviewed.json")
